@@ -441,12 +441,12 @@ def run_history(ctx, world, ops, slog):
 
 
 def _run_history(ctx, world, ops, slog):
+    from vf.obs import ambient
+    amb0 = ambient.snapshot()          # before anything of the library is constructed
     cls = build_class(world)
     V = build_validator(world, cls, healthy=False)
     scope0 = V.resolver.resolution_scope
     snap0 = snapshot(world)
-    from vf.obs import ambient
-    amb0 = ambient.snapshot()
     case = {"world": world.describe(), "history": [dict((k, v) for k, v in o.items() if not k.startswith("_")) for o in ops]}
     ctx.count("histories")
     ctx.case(case)
